@@ -268,3 +268,30 @@ Definition values_ok (n : net) (obs : list (vid * Qc)) : bool :=
 (* observed derivatives at one point *)
 Definition point_ok (f : vid -> option Qc) (obs : list (vid * Qc)) : bool :=
   forallb (fun p => oqc_eqb (f (fst p)) (Some (snd p))) obs.
+
+(* ---------------------------------------------------------------------------------------------- recursive meaning of a flat program *)
+(* the recursive (fuel) denotation of a list of assignments over a base memory — the flat-name counterpart of Net.value_with:
+   an assigned name means its defining expression, every other name the base memory *)
+Fixpoint den_assigns (prog : list assign) (env : string -> option Qc) (fuel : nat) (x : string) : option Qc :=
+  match fuel with
+  | O => None
+  | S f =>
+      match find (fun p : assign => String.eqb (fst p) x) prog with
+      | Some p => eval (den_assigns prog env f) (snd p)
+      | None => env x
+      end
+  end.
+
+(* a memory M (a value for every variable) that satisfies ALL equations of a network simultaneously *)
+Definition solves (n : net) (st pa : vid -> Qc) (M : vid -> option Qc) : Prop :=
+  forall v, match lookup n v with
+            | None => True
+            | Some (ops, op, d) =>
+                let '(nd, o, x) := v in
+                match vk d with
+                | VState => M v = Some (st v)
+                | VConst => M v = Some (pa v)
+                | VAlg => forall q, find_eq op x false = Some q -> M v = eval (fun y => M (nd, o, y)) (rhs q)
+                | VInput => M v = input_spec n pa M v (producers nd ops x)
+                end
+            end.
